@@ -20,6 +20,7 @@ _STDLIB = os.path.realpath(sysconfig.get_paths()["stdlib"])
 
 
 FRAME_CLAUSE = {"map.rate": "C13", "convert": "C08"}
+WRITE_PROP = {"osu": "C01", "qua": "C06", "sm": "C03", "bms": "C05"}
 
 
 class HarnessError(Exception):
@@ -325,6 +326,11 @@ class Session:
                     "alias-of-operand" if any(o in w.parent and name in w.parent and w.find(o) == w.find(name) for o in operands) else "unrelated")
                 inv = "I1.frame" if out.mutates is None else "I2.frame"
                 also = FRAME_CLAUSE.get(kind)
+                if kind == "io.write":
+                    # "reading what was written" gives the chart the caller holds (C01 / C03 / C05 / C06; the files of C09): a
+                    # writer that changes its own operand breaks that for the chart as it is after the call
+                    also = op.get("prop") or WRITE_PROP.get(op.get("game"))
+                    also = None if also == "C14" else also
                 if also and rel in ("operand", "alias-of-operand"):
                     # "the original is untouched" (C13) / "the source is left untouched" (C08) are clauses of those properties too
                     vs.append(Violation(also, inv, kind, self.step,
